@@ -1087,6 +1087,7 @@ class Shadow:
         self.values: list = []
         self.exact: list[bool] = []
         self.random: list[bool] = []  # value has no oracle (depends on random data)
+        self.lowprec: list[bool] = []  # a float32 value took part upstream: compare with float32 tolerance
         self.producer: list[int] = []  # step index (-1 for inputs)
 
     def add_input(self, inp):
@@ -1096,6 +1097,7 @@ class Shadow:
         self.values.append(a)
         self.exact.append(True)
         self.random.append(False)
+        self.lowprec.append(a.dtype == np.float32)
         self.producer.append(-1)
         return a
 
@@ -1106,12 +1108,14 @@ class Shadow:
             r = op.np_fn(p)
             ex = p["fn"] not in INEXACT_CREATE
             rnd = p["fn"] == "random"
+            lp = False
         else:
             args = [self.values[i] for i in step["args"]]
             with np.errstate(all="ignore"):
                 r = op.np_fn(*args, p)
             ex = op.exact and all(self.exact[i] for i in step["args"])
             rnd = any(self.random[i] for i in step["args"]) or step["op"] in NO_DIRECT_ORACLE
+            lp = any(self.lowprec[i] for i in step["args"])
         rs = r if op.nout > 1 else [r]
         if len(rs) != op.nout:
             raise ValueError("nout mismatch")
@@ -1120,6 +1124,7 @@ class Shadow:
             self.values.append(x)
             self.exact.append(ex)
             self.random.append(rnd)
+            self.lowprec.append(lp or x.dtype == np.float32)
             self.producer.append(si)
         return rs
 
@@ -1203,7 +1208,7 @@ def build(prog, spec, source_store=None, on_step=None, reuse_sources=False) -> B
 # comparison
 # ---------------------------------------------------------------------------
 
-def compare(got, want, exact=True):
+def compare(got, want, exact=True, lowprec=False):
     """None if equal, else a short description."""
     got = np.asarray(got)
     want = np.asarray(want)
@@ -1222,8 +1227,8 @@ def compare(got, want, exact=True):
             ok = np.array_equal(g, w)
         else:
             with np.errstate(all="ignore"):
-                ok = np.allclose(g, w, rtol=1e-4 if (want.dtype == np.float32 or got.dtype == np.float32) else 1e-7,
-                                 atol=1e-6, equal_nan=True)
+                ok = np.allclose(g, w, rtol=1e-4 if (lowprec or want.dtype == np.float32 or got.dtype == np.float32) else 1e-7,
+                                 atol=1e-4 if lowprec else 1e-6, equal_nan=True)
     else:
         ok = np.array_equal(got, want)
     if ok:
@@ -1329,10 +1334,10 @@ def generate_program(tp: Tape, max_steps=8, max_extent=12, profile="general", n_
                 warnings.simplefilter("ignore")
                 rs = sh.run_step(len(prog["steps"]), step)
         except Exception:  # noqa: BLE001 - NumPy refuses: not a valid expression
-            del sh.values[nvals:], sh.exact[nvals:], sh.random[nvals:], sh.producer[nvals:]
+            del sh.values[nvals:], sh.exact[nvals:], sh.random[nvals:], sh.producer[nvals:], sh.lowprec[nvals:]
             continue
         if any(np.asarray(r).size > 20000 or np.asarray(r).ndim > 4 for r in rs):
-            del sh.values[nvals:], sh.exact[nvals:], sh.random[nvals:], sh.producer[nvals:]
+            del sh.values[nvals:], sh.exact[nvals:], sh.random[nvals:], sh.producer[nvals:], sh.lowprec[nvals:]
             continue
         prog["steps"].append(step)
     # outputs: the last value plus a few others
